@@ -69,6 +69,10 @@ func run(r *vkit.Report) {
 	nGate := r.Scale(640, 2560)
 	nInduced := r.Scale(21000, 63000)
 	nLib := r.Scale(1680, 6720)
+	nDeaf := r.Scale(480, 1920)
+	nMergeWide := r.Scale(60, 240)
+	nRepWide := r.Scale(240, 960)
+	nIface := r.Scale(1920, 7680)
 	nShared := r.Scale(4200, 16800)
 
 	r.Cases("regress", nReg, workers, regressCase)
@@ -80,6 +84,10 @@ func run(r *vkit.Report) {
 	r.Cases("smerge-ctx", nCtx, workers, smergeCtxCase)
 	r.Cases("smerge-endless", nEndless, workers, smergeEndlessCase)
 	r.Cases("smerge-gate", nGate, workers, smergeGateCase)
+	r.Cases("chans-iface", nIface, workers, ifaceCase)
+	r.Cases("chans-replicate-wide", nRepWide, workers, replicateWideCase)
+	r.Cases("chans-merge-wide", nMergeWide, workers, chansMergeWideCase)
+	r.Cases("smerge-deaf", nDeaf, workers, smergeDeafCase)
 	r.Cases("smerge-lib", nLib, workers, smergeLibCase)
 	r.Cases("chans-shared", nShared, workers, chansSharedCase)
 	r.Cases("smerge-induced", nInduced, workers, smergeInducedCase)
@@ -112,6 +120,21 @@ func run(r *vkit.Report) {
 	r.Floor("stream.Merge with stream.Empty() at an enumerated position among inputs that finish at once", r.Table("stream.Merge over the library's own streams", "stream.Empty() at an enumerated position"), int64(nLib/8))
 	for _, p := range []string{"range(1)", "merge2", "merge3", "reflect(4)", "reflect(5)", "reflect(7)"} {
 		r.Floor("chans.Merge with buffered inputs shared with a second receiver, code path "+p, r.Table("chans.Merge with shared inputs, path", p), int64(nShared/12))
+	}
+	r.Floor("stream.Merge plans: an input fails while another is blocked in a context-ignoring Next", r.Table("stream.Merge", "plans: an input fails while another is blocked in a context-ignoring Next"), int64(nDeaf))
+	for _, k := range []int{1, 2, 63, 64, 65, 66, 100, 130} {
+		r.Floor(fmt.Sprintf("chans.Replicate with %d destinations and slow receivers", k), r.Table("chans.Replicate wide", fmt.Sprintf("%d destinations", k)), int64(nRepWide/16))
+	}
+	for _, k := range wideCounts {
+		r.Floor(fmt.Sprintf("chans.Merge with %d inputs", k), r.Table("chans.Merge path", mergePath(k)), int64(nMergeWide/12))
+	}
+	for _, f := range []string{"chans.Merge", "chans.Replicate", "stream.Merge"} {
+		for _, e := range []string{"error", "any"} {
+			r.Floor("element type "+e+" with nil values through "+f, r.Table("interface element type with nil values: "+f, e), int64(nIface/12))
+		}
+	}
+	for k := 0; k <= 7; k++ {
+		r.Floor(fmt.Sprintf("chans.Merge of an interface element type with nil values, %d inputs", k), r.Table("interface element type with nil values: chans.Merge arity", fmt.Sprint(k)), int64(nIface/3/8/2))
 	}
 	r.Floor("stream.Merge read to End while every input's Close was blocked", r.Table("stream.Merge", "plans whose inputs' Close blocks until End was seen"), int64(nGate/2))
 	r.Floor("stream.Merge trials: one input fails while child-context inputs are parked", r.Table("stream.Merge one input fails, others parked on a child context", "trials"), 20000)
